@@ -5,12 +5,16 @@ EXTENDS Naturals, Sequences, FiniteSets, TLC, Text
 
 Lower == ("A" :> "a" @@ "B" :> "b" @@ "EACU" :> "EAC")       \* case folding on the model alphabet
 WhiteOut == ("TAB" :> "SP" @@ "CR" :> "SP" @@ "LF" :> "SP")
+\* "NB": a white-space character that is neither a space, a tab nor a line break (no-break space, form feed, em space ...).
+\* It is white space -- removed at the ends by strip, a word separator -- but it is not a space: it is never converted,
+\* collapsed or removed inside the text ("no other character is ever ignored or altered").
+White == {"SP", "NB"}
 
 \* flags: record [cs (case_sensitive), strip, stripAll, cleanSpaces]
 Clean(s, f) ==
   LET s1 == MapSym(ReplacePair(ReplacePair(MapSym(s, ("TAB" :> "SP")), "CR", "LF", "SP"), "LF", "CR", "SP"), WhiteOut)
       s2 == IF f.cs THEN s1 ELSE MapSym(s1, Lower)
-      s3 == IF f.strip THEN StripEnds(s2, {"SP"}) ELSE s2
+      s3 == IF f.strip THEN StripEnds(s2, White) ELSE s2
       s4 == IF f.stripAll THEN RemoveAll(s3, "SP") ELSE s3
       s5 == IF f.cleanSpaces THEN Collapse(s4, "SP") ELSE s4
   IN s5
@@ -47,17 +51,19 @@ Outcome(cfg, expect, input) ==
   IF cfg.pattern.k # "none" /\ ~any /\ ~FullMatch(cfg.pattern, ce) THEN "config_err"
   ELSE IF cfg.pattern.k # "none" /\ ~FullMatch(cfg.pattern, ci) THEN Refuse("invalid", cfg.explainVal)
   ELSE IF ~any THEN (IF ce = ci THEN "accept" ELSE "wrong")
-  ELSE IF Len(ci) < minLen \/ WordCount(ci, {"SP"}) < cfg.minWords THEN Refuse("short", cfg.explainMin)
+  ELSE IF Len(ci) < minLen \/ WordCount(ci, White) < cfg.minWords THEN Refuse("short", cfg.explainMin)
   ELSE "accept"
 
 (* ---- laws about the specification itself *)
 NonSpace(s) == SelectSeq(s, LAMBDA x : x \notin {"SP", "TAB", "CR", "LF"})
 CleanIdempotent(s, f) == Clean(Clean(s, f), f) = Clean(s, f)
-\* no non-space symbol is dropped or altered except by case folding
-KeepsInk(s, f) == NonSpace(Clean(s, f)) = (IF f.cs THEN NonSpace(s) ELSE MapSym(NonSpace(s), Lower))
+\* no non-space symbol is dropped or altered except by case folding (and white space at the ends by strip)
+KeepsInk(s, f) == LET kept == NonSpace(IF f.strip THEN StripEnds(s, {"SP", "TAB", "CR", "LF", "NB"}) ELSE s)
+                  IN NonSpace(Clean(s, f)) = (IF f.cs THEN kept ELSE MapSym(kept, Lower))
 \* cleaning never leaves a TAB/CR/LF; with strip no SP at the ends; with cleanSpaces no double SP; with stripAll no SP
 CleanShape(s, f) == LET c == Clean(s, f) IN
   /\ \A i \in 1..Len(c) : c[i] \notin {"TAB", "CR", "LF"}
+  /\ f.strip /\ ~f.stripAll /\ c # <<>> => c[1] \notin White /\ c[Len(c)] \notin White
   /\ f.strip /\ c # <<>> => c[1] # "SP" /\ c[Len(c)] # "SP"
   /\ f.cleanSpaces => \A i \in 1..(Len(c) - 1) : ~(c[i] = "SP" /\ c[i + 1] = "SP")
   /\ f.stripAll => \A i \in 1..Len(c) : c[i] # "SP"
